@@ -1,8 +1,9 @@
-"""C16 — dotdict behaves as a tree of nested mappings addressed by dotted paths.  (bounded only)
+"""C16 — dotdict behaves as a tree of nested mappings addressed by dotted paths.
 
-dotdict is string surgery plus restricted eval; solvers leave such conditions undecided and no contract
-within reach of pyvc expresses the tree property.  Bounded stand-in: operation sequences on the real
-dotdict against an independent nested-dict model.
+dotdict is string surgery plus restricted eval; the tree property over operation histories is decided by a bounded
+stand-in only (operation sequences on the real dotdict against an independent nested-dict model).  A small deductive
+core rides along: two fragment contracts on the real _resolve (the `..` parent-level reduction step and the
+first-segment split), discharged for all strings by cvc5.
 """
 import copy
 import itertools
@@ -10,14 +11,16 @@ import random
 
 PROPERTY = 'C16'
 LEVEL = 'exploration'
-LEVEL_TEXT = ('Bounded only (not_applicable to deductive contracts): every operation sequence up to length 2 (quick) / 3 (thorough) over a fixed '
+LEVEL_TEXT = ('Deciding tier is bounded (labelled bounded, not proved): every operation sequence up to length 2 (quick) / 3 (thorough) over a fixed '
               'set of ~40 operations, plus seeded random sequences of length 10, is run on the real dotdict and on an independent nested-dict model: '
               'set/get/in/del/pop/setdefault/update by dotted path, attribute and index form (depth <= 3, keys a b c, leading dots, `..` parent segments, '
               'name[i] elements of lists of mappings, nested index expressions), plain dicts assigned as levels, refusal of non-empty deletes and reserved '
-              'names, key/value/item iteration (every listed key looks up to the listed value), shallow and deep copies independent of the original.')
-LEVEL_NOTE = 'No deductive obligation. Indexes beyond a list length are outside the checked domain (membership raises IndexError there on this tree).'
-TECHNIQUE = 'bounded exhaustive + seeded random operation sequences on the real dotdict against an independent nested-dict model (no deductive obligation)'
-TRUSTED = ['the nested-dict model in this file']
+              'names, key/value/item iteration (every listed key looks up to the listed value), shallow and deep copies independent of the original. '
+              'A deductive core IS discharged for all strings (pyvc fragments of the real dotdict_base._resolve, cvc5 strings): one iteration of the `..` loop turns '
+              'P.q..back into P.back for every parent path P, single segment q and remainder; the first-segment split returns (a, b) for a.b and .a.b.')
+LEVEL_NOTE = 'T9 fragments of _resolve only (bracketed segments, eval of index expressions, the mapping operations and iteration are bounded-only). Indexes beyond a list length are outside the checked domain (membership raises IndexError there on this tree).'
+TECHNIQUE = 'bounded exhaustive + seeded random operation sequences on the real dotdict against an independent nested-dict model; deductive fragment contracts (pyvc, cvc5 strings) on dotdict_base._resolve'
+TRUSTED = ['the nested-dict model in this file', 'T9 fragment contracts: the rest of _resolve (bracket balancing) is unverified', 'str.rfind of one character: exact last-occurrence characterisation']
 ASSUMPTIONS = ['keys over {a,b,c,l,m}, depth <= 3, list indexes in range']
 
 
@@ -418,5 +421,72 @@ def bounded(tier, seed):
                 exhaustive=False, samples=samples, violations=violations[:20], seed=seed)
 
 
+# ------------------------------------------------------------------------------------------------ deductive core: fragments of dotdict._resolve
+import ast as _ast
+
+F = 'dotdict.py'
+
+
+def frag_dotdot_body(eng, fdef):
+    """the body of the `while '..' in mine:` loop of dotdict_base._resolve (one parent-level reduction)"""
+    from pyvc.vals import Unsupported
+    for n in _ast.walk(fdef):
+        if isinstance(n, _ast.While) and _ast.unparse(n.test) == "'..' in mine":
+            return list(n.body)
+    raise Unsupported("stale contract: _resolve has no `while '..' in mine:` loop")
+
+
+def frag_first_segment(eng, fdef):
+    """the `while '.' in mine:` loop of dotdict_base._resolve and the statements after it (first-segment split)"""
+    from pyvc.vals import Unsupported
+    for i, n in enumerate(fdef.body):
+        if isinstance(n, _ast.While) and _ast.unparse(n.test) == "'.' in mine":
+            return list(fdef.body[i:])
+    raise Unsupported("stale contract: _resolve has no top-level `while '.' in mine:` loop")
+
+
+def replay_resolve(model, obligation):
+    """the whole real _resolve on keys of the contracted forms against the textual reference norm() of this file"""
+    import cpppo
+    d = cpppo.dotdict()
+    keys = ['a.b..c', 'b..c', 'ab..c', 'a.b..c.d', 'a.b.c..d', 'a.bc..de', 'a.b.c...d', 'x.y.z..w.v', 'a.b', 'a.b.c', 'ab.cd.ef', '.a.b', 'a.b..c..d']
+    for key in keys:
+        toks = norm(key)
+        want = (toks[0], '.'.join(toks[1:]) or None)
+        try:
+            got = d._resolve(key)
+        except Exception as e:
+            got = 'raised %s: %s' % (type(e).__name__, e)
+        if got != want:
+            return dict(confirmed=True, function='cpppo.dotdict.dotdict_base._resolve', input=dict(key=key), observed=repr(got), required='(first segment, remaining path) == %r' % (want,))
+    return dict(confirmed=False)
+
+
+def resolve_fragments():
+    from pyvc.spec import Spec, Loop
+    dd = Spec('_resolve[.. is the parent level]', (F, 'dotdict_base._resolve'), params={}, fragment=frag_dotdot_body,
+              hints=dict(locals={'mine': 'Str', 'P': 'Str', 'q': 'Str', 'back': 'Str', 'key': 'Str', 'rest': 'None'}),
+              requires="len(q) > 0 and '.' not in q and '..' not in P and (len(P) == 0 or P[len(P) - 1:] != '.') and "
+                       "mine == (P + '.' if len(P) > 0 else '') + q + '..' + back",
+              ensures=[('the segment before `..` and the `..` itself are replaced by the parent path',
+                        "_f_mine == P + ('.' if (len(P) > 0 and len(back) > 0) else '') + back")],
+              raises={}, modifies=[], replay=replay_resolve,
+              note='FRAGMENT (T9): one iteration of the `..` back-tracking loop, for every parent path P (no `..`, not ending in a dot), every single '
+                   'segment q and every remainder: P.q..back becomes P.back (q..back becomes back)')
+    fs = Spec('_resolve[first segment]', (F, 'dotdict_base._resolve'), params={}, fragment=frag_first_segment,
+              hints=dict(locals={'mine': 'Str', 'a': 'Str', 'b': 'Str', 'key': 'Str', 'rest': ('Union', ['None', 'Str'])}),
+              requires="rest is None and '[' not in mine and '..' not in mine and len(a) > 0 and '.' not in a and (mine == a + '.' + b or mine == '.' + a + '.' + b)",
+              ensures=[('the first non-empty segment, and the remaining path', "result[0] == a and result[1] == b")],
+              raises={}, modifies=[], replay=replay_resolve,
+              loops={1: Loop(invariant=[('at most one leading dot was skipped',
+                                         "(mine == old(mine) and rest is None) or (old(mine)[:1] == '.' and mine == old(mine)[1:] and rest == mine)")],
+                             variant='len(mine)'),
+                     2: Loop(invariant=[('the bracket-balancing loop is unreachable for keys without brackets', 'False')])},
+              note='FRAGMENT (T9): the first-segment split of _resolve after the `..` reduction, for keys without index brackets: a.b and .a.b give (a, b). '
+                   'The single leading-dot key `.a` (no further dot) is the recorded known finding (it resolves to (a, a)) and is outside this contract; '
+                   'bracketed segments are bounded-only')
+    return [dd, fs]
+
+
 def contracts(repo):
-    return []
+    return resolve_fragments()
